@@ -229,3 +229,12 @@ func (x *FnIndex) mayHeldAt(at ssa.Instruction) map[string]string {
 	}
 	return held
 }
+
+func heldKinds(h map[string]string) []string {
+	var s []string
+	for k, v := range h {
+		s = append(s, k+"("+v+")")
+	}
+	sort.Strings(s)
+	return s
+}
